@@ -194,6 +194,48 @@ def validate_trace(trace_path, module="TraceForest.tla", cfg="TraceForest.cfg", 
     return dict(events=len(lines), rejects=rejects, states=gen, distinct=dist, lines=lines)
 
 
+def validate_trace_flat(trace_path, module, cfg, nshards=12, timeout=900, tag="flat"):
+    """Like validate_trace for traces whose events are independent (no episodes): shard by line count."""
+    d = workdir("tv_" + tag)
+    with open(trace_path) as f:
+        lines = f.readlines()
+    n = len(lines)
+    per = max(1, (n + nshards - 1) // nshards)
+    shards = []
+    for k in range(0, n, per):
+        sp = os.path.join(d, f"shard{k}.ndjson")
+        with open(sp, "w") as f:
+            f.writelines(lines[k:k + per])
+        shards.append((sp, k, min(per, n - k)))
+    known_path = os.path.join(d, "known.json")
+    json.dump(open_known_ids(), open(known_path, "w"))
+
+    def one(k):
+        sp, first, cnt = shards[k]
+        return k, run_tlc(module, cfg, workers=1, timeout=timeout, env={"TRACE": sp, "KNOWN": known_path}, tag=f"{tag}_{k}", xmx="3g")
+
+    rejects = []
+    gen = dist = 0
+    with cf.ThreadPoolExecutor(max_workers=min(len(shards), 14)) as ex:
+        for k, r in ex.map(one, range(len(shards))):
+            sp, first, cnt = shards[k]
+            if not r["ok"]:
+                log(r["error"] or r["raw"][-2000:])
+                raise ToolError(f"TLC failed on shard {k} of {trace_path}")
+            if r["distinct"] != cnt + 1:
+                raise ToolError(f"trace shard {k} not fully consumed: {r['distinct']} states for {cnt} events")
+            gen += r["generated"]
+            dist += r["distinct"]
+            for l in r["lines"]:
+                if l.startswith("REJECT "):
+                    j = json.loads(l[len("REJECT "):])
+                    j["line"] = first + j["i"] - 1
+                    rejects.append(j)
+    rejects.sort(key=lambda j: (j["line"], j["prop"]))
+    shutil.rmtree(d, ignore_errors=True)
+    return dict(events=n, rejects=rejects, states=gen, distinct=dist, lines=lines)
+
+
 def scenario_for(lines, idx):
     """Self-contained replay scenario for the event at global line idx: the pre-state and the call."""
     ev = json.loads(lines[idx])
